@@ -58,6 +58,7 @@ type FuncContract struct {
 }
 
 var recvInvRe = regexp.MustCompile(`^invariant\s+\(\*?(\w+)\)\s+(\w+)\s*(\[[A-Z0-9,]*\])?\s+([A-Za-z0-9_\-.]+):\s*(.*)$`)
+var frameRe = regexp.MustCompile(`^postcondition\s+\(\*?(\w+)\)\s*(\[[A-Z0-9,]*\])?\s+([A-Za-z0-9_\-.]+):\s*(.*)$`)
 var defineRe = regexp.MustCompile(`^define\s+(\w+)\(([^)]*)\):\s*(.*)$`)
 var clauseRe = regexp.MustCompile(`^(requires|ensures|lemma|assume|witness|flag)(\[[A-Z0-9,]*\])?\s+([A-Za-z0-9_\-.]+):\s*(.*)$`)
 var loopRe = regexp.MustCompile(`^loop\s+(\d+)\s+(invariant|unroll|exit)(\[[A-Z0-9,]*\])?\s*(?:([A-Za-z0-9_\-.]+):\s*(.*))?$`)
@@ -147,6 +148,18 @@ func (w *World) loadContractFile(pkg, file string) error {
 			key := pkg + "." + m[1]
 			w.recvInv[key] = append(w.recvInv[key], c)
 			cur = &FuncContract{Key: pkg + ".invariant." + m[1], Pkg: pkg, Loops: map[int][]*Clause{}, Params: map[string][]*Clause{}, Flags: map[string]bool{}}
+			last = c
+			continue
+		}
+		if m := frameRe.FindStringSubmatch(txt); m != nil {
+			// a postcondition every method of the type guarantees (unless flagged `nocommon`)
+			if w.commonPost == nil {
+				w.commonPost = map[string][]*Clause{}
+			}
+			c := &Clause{Kind: "commonpost", Props: parseProps(m[2]), Label: m[3], Text: m[4], File: file, Line: i + 1}
+			key := pkg + "." + m[1]
+			w.commonPost[key] = append(w.commonPost[key], c)
+			cur = &FuncContract{Key: pkg + ".postcondition." + m[1], Pkg: pkg, Loops: map[int][]*Clause{}, Params: map[string][]*Clause{}, Flags: map[string]bool{}}
 			last = c
 			continue
 		}
